@@ -140,6 +140,8 @@ func runC09(r *Run) {
 	r.checkCurveTables(P)
 	r.checkLeftPad(P)
 	r.checkOKPLength(P)
+	r.checkWholeInputDecoding(P)
+	r.checkJWKPreParseDecoder(P)
 	// --- size
 	if f := r.fn(P, pkgIJWS, "verifyECSignature"); f != nil {
 		b, ok := r.requireSucc(P+".size.ec", "a truncated or extended ECDSA signature must be rejected", f, core.Ctx{}, "",
@@ -411,4 +413,82 @@ func (r *Run) checkOKPLength(P string) {
 		}
 	}
 	r.R.Check(good && n == 1, id, rule, core.FuncName(f), r.where(f), why, "guarded", strings.Join(det, "; ")+fmt.Sprintf(" (%d delegations found)", n))
+}
+
+// checkWholeInputDecoding (C09, "any change to the decoded protected header is
+// rejected"): signed material is decoded with a whole-input decoder. A streaming
+// (*json.Decoder).Decode stops after the first value, so bytes appended to a
+// genuine header would be ignored; such a call is accepted only when the same
+// function also asks the decoder whether input remains (More / Token / Buffered).
+func (r *Run) checkWholeInputDecoding(P string) {
+	nUnmarshal, nDecode := 0, 0
+	var bad []string
+	for _, f := range r.P.SubjectFuncs(pkgIJWS, pkgJWS) {
+		ff := r.E.Facts(f, core.Ctx{})
+		trailing := false
+		var decodes []*ssa.Call
+		for _, b := range f.Blocks {
+			if !ff.Live[b] {
+				continue
+			}
+			for _, ins := range b.Instrs {
+				c, ok := ins.(*ssa.Call)
+				if !ok {
+					continue
+				}
+				sc := c.Common().StaticCallee()
+				if sc == nil {
+					continue
+				}
+				name := sc.String()
+				switch {
+				case strings.HasSuffix(name, "json.Unmarshal"):
+					nUnmarshal++
+				case strings.HasSuffix(name, "json.Decoder).Decode"):
+					decodes = append(decodes, c)
+				case strings.HasSuffix(name, "json.Decoder).More"), strings.HasSuffix(name, "json.Decoder).Token"), strings.HasSuffix(name, "json.Decoder).Buffered"):
+					trailing = true
+				}
+			}
+		}
+		nDecode += len(decodes)
+		if len(decodes) > 0 && !trailing {
+			for _, c := range decodes {
+				bad = append(bad, core.FuncName(f)+" at "+r.P.Pos(c.Pos()))
+			}
+		}
+	}
+	r.R.Check(len(bad) == 0 && nUnmarshal >= 3, P+".decode.whole", "who-may-call: in the JWS packages received bytes are decoded with json.Unmarshal (which rejects trailing content); a streaming Decoder.Decode is allowed only with a remaining-input test in the same function",
+		"pkg/internal/jws, pkg/jws", "-", "a decoder that stops after the first JSON value accepts a genuine JWS whose protected header has bytes appended: the decoded header changed and the JWS still verifies",
+		fmt.Sprintf("%d whole-input decodes, %d streaming decodes (all with a remaining-input test)", nUnmarshal, nDecode), "streaming decode without a remaining-input test: "+strings.Join(bad, "; "))
+}
+
+// checkJWKPreParseDecoder: the JWK reader looks at the key twice — its own
+// pre-parse (kty/crv/x length) and the JOSE library's parse. The library's JSON
+// package matches member names exactly; the standard library's matches them
+// case-insensitively, so a member "X" could satisfy the pre-parse while the
+// library reads "x". Both decodes must use the same package.
+func (r *Run) checkJWKPreParseDecoder(P string) {
+	f := r.fn(P, pkgIJWS, "JWK.UnmarshalJSON")
+	if f == nil {
+		return
+	}
+	ff := r.E.Facts(f, core.Ctx{})
+	pkgs := map[string]bool{}
+	n := 0
+	for _, c := range r.callsIn(f, "json.Unmarshal") {
+		n++
+		if sc := c.Common().StaticCallee(); sc != nil && sc.Pkg != nil {
+			pkgs[sc.Pkg.Pkg.Path()] = true
+		}
+	}
+	_ = ff
+	var ps []string
+	for k := range pkgs {
+		ps = append(ps, k)
+	}
+	sort.Strings(ps)
+	okPkg := len(ps) == 1 && strings.Contains(ps[0], "go-jose")
+	r.R.Check(okPkg && n >= 2, P+".jwk.decoder", "sibling agreement: the JWK pre-parse and the delegation to the JOSE library decode with the same (case-sensitive) JSON package of that library", core.FuncName(f), r.where(f),
+		"with a case-insensitive pre-parse, {\"x\":<31 bytes>,\"X\":<32 bytes>} passes the length test on \"X\" while the library builds the key from \"x\"", strings.Join(ps, ", "), "decoders used: "+strings.Join(ps, ", "))
 }
